@@ -189,7 +189,8 @@ def run_spec(arg):
     if out["reach"] == 0 and out["result"] == "holds":
         out["result"] = "inconclusive"
         out["why"] = "vacuous: no (path, reference case) pair is satisfiable"
-    if out["result"] == "holds":
+    if out["result"] in ("holds", "inconclusive"):
+        # (native validation runs do not depend on whether the symbolic run reached a verdict)
         U.validate_native(E, paths, lv, conc, out, big=g.get("big_ints", True))
     return out
 
